@@ -219,12 +219,13 @@ class ClosedFormIASolver(IASolverBaseClass):
         # Help the type system knowing that at this point Ns is a Sequence[int]
         assert (not isinstance(Ns, int))
 
+        # Set (and validate) the power before anything else is modified
+        self.P = P
+
         # This will create a new array so that we can modify self._Ns
         # internally without changing the original Ns variable passed to
         # the solve method.
         self._Ns = np.array(Ns)
-
-        self.P = P
 
         if self._use_best_init is True:
             # xxxxx Case when the best solution should be used xxxxxxxxxxxx
@@ -853,6 +854,10 @@ class IterativeIASolverBaseClass(IASolverBaseClass):
         else:
             # noinspection PyTypeChecker
             assert len(Ns) == self.K
+
+        # Set (and validate) the power before anything else is modified: a
+        # rejected power must not leave the new number of streams behind.
+        self.P = P  # type: ignore
 
         # This will create a new array so that we can modify self._Ns
         # internally without changing the original Ns variable passed to
